@@ -32,6 +32,15 @@ def log(*a):
     print(*a, flush=True)
 
 
+def write_cargo_toml(d):
+    """Cargo.toml from Cargo.toml.in with the repository path (default /repo; VERIF_REPO is only for
+    running the machinery against a scratch copy when testing seeded changes)."""
+    src = open(os.path.join(ROOT, d, "Cargo.toml.in")).read().replace("@REPO@", REPO)
+    dst = os.path.join(ROOT, d, "Cargo.toml")
+    if not os.path.exists(dst) or open(dst).read() != src:
+        open(dst, "w").write(src)
+
+
 def repo_tree_hash():
     h = hashlib.sha256()
     try:
@@ -75,8 +84,37 @@ def kani_group(pid, gname, group, harnesses, jobs, workdir):
         cmd.append(extra)
     for h in harnesses:
         cmd += ["--harness", h]
-    if group.get("cbmc_args"):
-        cmd += ["--cbmc-args"] + group["cbmc_args"]
+    cbmc_args = list(group.get("cbmc_args", []))
+    if group.get("unwindset"):
+        # per-loop bounds (DESIGN.md 2.2): a codegen-only pass, then `cbmc --show-loops` on every goto
+        # binary to find the ids of the loops named by the patterns (e.g. the [T; N]::default() loop of
+        # a 390-entry list) so that the global unwind bound can stay small. Unwinding assertions stay on.
+        pre = ["cargo", "kani", "--features", ",".join(group["features"]), "--target-dir", target, "--exact", "--only-codegen"]
+        pre += list(group.get("kani_args", []))
+        for h in harnesses:
+            pre += ["--harness", h]
+        pp = subprocess.run(pre, cwd=KANI_DIR, env=ENV_BASE, capture_output=True, text=True)
+        if pp.returncode != 0:
+            with open(out_log + ".codegen", "w") as lf:
+                lf.write(pp.stdout + pp.stderr)
+        ids = {}
+        import glob
+        outs = glob.glob(os.path.join(target, "kani", "*", "debug", "build", "rtcm-verif-harness", "*", "out", "*.out"))
+        outs = [o for o in outs if not o.endswith(".symtab.out")]
+        for o in outs:
+            try:
+                txt = subprocess.run(["cbmc", "--show-loops", o], capture_output=True, text=True, timeout=300).stdout
+            except Exception:
+                continue
+            for m in re.finditer(r"^Loop (\S+):\n\s+(.*)$", txt, flags=re.M):
+                for pat, bound in group["unwindset"]:
+                    if re.search(pat, m.group(2)) or re.search(pat, m.group(1)):
+                        ids[m.group(1)] = max(bound, ids.get(m.group(1), 0))
+        if ids:
+            cbmc_args += ["--unwindset", ",".join("%s:%d" % kv for kv in sorted(ids.items()))]
+    if cbmc_args:
+        cmd += ["--cbmc-args"] + cbmc_args
+        group["cbmc_args_resolved"] = cbmc_args
     t0 = time.time()
     # memory guard: CBMC is memory-bound here (no swap). A `ulimit -v` on cargo-kani would also hit
     # kani-compiler (it reserves a lot of address space), so a watchdog kills any of OUR cbmc
@@ -93,14 +131,30 @@ def kani_group(pid, gname, group, harnesses, jobs, workdir):
                 out = subprocess.run(["ps", "-eo", "pid,pgid,rss,comm"], capture_output=True, text=True).stdout
             except Exception:
                 continue
+            mine = []
             for line in out.split("\n")[1:]:
                 f = line.split()
-                if len(f) == 4 and f[3].startswith("cbmc") and pgid_holder and f[1] == str(pgid_holder[0]) and int(f[2]) > cap_kb:
-                    try:
-                        os.kill(int(f[0]), 9)
-                        killed.append(int(f[0]))
-                    except Exception:
-                        pass
+                if len(f) == 4 and f[3].startswith("cbmc") and pgid_holder and f[1] == str(pgid_holder[0]):
+                    mine.append((int(f[2]), int(f[0])))
+                    if int(f[2]) > cap_kb:
+                        try:
+                            os.kill(int(f[0]), 9)
+                            killed.append(int(f[0]))
+                        except Exception:
+                            pass
+            # system-wide guard (no swap): before the kernel's OOM killer picks a victim at random
+            # (it has taken cargo-kani itself), give up on our largest solver process
+            try:
+                avail = int(re.search(r"MemAvailable:\s+(\d+)", open("/proc/meminfo").read()).group(1))
+            except Exception:
+                avail = None
+            if avail is not None and avail < 3 * 1024 * 1024 and mine:
+                rss, pid_ = max(mine)
+                try:
+                    os.kill(pid_, 9)
+                    killed.append(pid_)
+                except Exception:
+                    pass
 
     holder = []
     with open(out_log, "w") as lf:
@@ -226,6 +280,8 @@ def main():
     os.makedirs(workdir, exist_ok=True)
     os.makedirs(os.path.join(ROOT, "evidence"), exist_ok=True)
 
+    write_cargo_toml("kani")
+    write_cargo_toml("native")
     import gen
     try:
         plan = gen.generate(pid, a.tier)
